@@ -64,11 +64,35 @@ OkKDF(ev) ==
   /\ OneCtx(ev, ev.hash, KdfInput(ev.zb, ev.oid, ev.hash, ev.sym, ev.fpr))
   /\ ev.out = ev.md[1].out
 
+(* the hashed part of a signature as prepared by the library's PacketSigPrepare... functions: parsed back with *)
+(* the subpacket grammar of 5.2.3.1; the fields the caller gave must be the ones a reader finds                *)
+T32(p) == BE32(p[1], p[2])
+IssuerOk(subs, issuer) ==
+  CASE Len(issuer) = 8 -> HasOne(subs, 16, issuer)
+    [] Len(issuer) = 20 -> (HasNone(subs, 16) \/ HasOne(subs, 16, SubSeq(issuer, 13, 20))) /\ HasOne(subs, 33, <<4>> \o issuer)
+    [] Len(issuer) = 32 -> HasNone(subs, 16) /\ HasOne(subs, 33, <<5>> \o issuer)   \* no Issuer subpacket for a v5 key
+    [] OTHER -> FALSE
+OkSigPrep(ev) ==
+  LET h == ParseHashed(ev.out)  subs == h.subs IN
+  /\ h.ok /\ h.v = ev.v /\ h.type = ev.type /\ h.pk = ev.pk /\ h.hash = ev.hash
+  /\ \A k \in 1..Len(subs) : SubBodyOk(subs[k])
+  /\ \A t \in 0..127 : t # 20 => Cardinality(SubIdx(subs, t)) <= 1
+  /\ HasOne(subs, 2, T32(ev.time))                                   \* creation time MUST be in the hashed area
+  /\ IssuerOk(subs, ev.issuer)
+  /\ (IF ev.fn = "self" /\ ev.exp # <<0, 0>> THEN HasOne(subs, 9, T32(ev.exp)) ELSE HasNone(subs, 9))
+  /\ (IF ev.fn \in {"detached", "detachedv5", "certification"} /\ ev.exp # <<0, 0>> THEN HasOne(subs, 3, T32(ev.exp)) ELSE HasNone(subs, 3))
+  /\ (IF ev.fn \in {"detached", "detachedv5", "certification"} /\ ev.policy # <<>> THEN HasOne(subs, 26, ev.policy) ELSE HasNone(subs, 26))
+  /\ (ev.fn \in {"self", "revoker"} => HasOne(subs, 27, ev.flags))
+  /\ (ev.fn = "revoker" => IF ev.revoker = <<>> THEN HasNone(subs, 12) ELSE HasOne(subs, 12, <<128, ev.pk2>> \o ev.revoker))
+  /\ (ev.fn = "revocation" => HasOne(subs, 29, <<ev.revcode>> \o ev.reason))
+  /\ ev.md = <<>>                                                      \* preparing a signature hashes nothing
+
 Ok(ev) == CASE ev.e = "Fpr" -> OkFpr(ev)
             [] ev.e = "KeyId" -> OkKeyId(ev)
             [] ev.e = "SigHash" -> OkSigHash(ev)
             [] ev.e = "S2K" -> OkS2K(ev)
             [] ev.e = "KDF" -> OkKDF(ev)
+            [] ev.e = "SigPrep" -> OkSigPrep(ev)
             [] OTHER -> FALSE
 
 Init == l = 1
